@@ -1,6 +1,7 @@
-(* Props/C08.v — Kruskal re-parameterisations preserve the tensor. Only statements, `exact`, Print Assumptions. *)
+(* Props/C08.v — Kruskal re-parameterisations preserve the tensor. Only statements, `exact`, Print Assumptions.
+   (wave 4: every theorem is closed by a bare `exact` of the lemma with the same statement in Proofs/C08Stmts.v.) *)
 From Coq Require Import List Arith Bool ZArith QArith Permutation Ring Sorted.
-From PV Require Import Base.Index Base.Perm Base.Sum Model.Repr Model.C08Kruskal Proofs.C08Proofs Proofs.C08NormalForm Proofs.C08Vec Proofs.C08Signs.
+From PV Require Import Base.Index Base.Perm Base.Sum Model.Repr Model.C08Kruskal Proofs.C08Proofs Proofs.C08NormalForm Proofs.C08Vec Proofs.C08Signs Proofs.C08Stmts.
 Import ListNotations.
 Local Open Scope nat_scope.
 
@@ -14,45 +15,45 @@ Notation den := (den_k v0 v1 vadd vmul).
 Theorem C08_invariant_redistribute : forall n K, n < length (kfactors K) ->
   (forall i, den (k_redistribute v1 vmul n K) i = den K i) /\
   kweights (k_redistribute v1 vmul n K) = map (fun _ => v1) (kweights K).
-Proof. intros n K H. exact (conj (den_redistribute V v0 v1 vadd vmul vsub vopp Vring n K H) eq_refl). Qed.
+Proof. exact (C08_invariant_redistribute_pf V v0 v1 vadd vmul vsub vopp Vring). Qed.
 
 (* arrange(permutation=p): same array for every permutation p of the components *)
 Theorem C08_invariant_arrange_perm : forall p K, is_perm p (krank K) ->
   forall i, den (k_arrange_perm v0 p K) i = den K i.
-Proof. intros; eapply den_gather_perm; eauto. Qed.
+Proof. exact (C08_invariant_arrange_perm_pf V v0 v1 vadd vmul vsub vopp Vring). Qed.
 
 (* extract(idx): the sum of the selected components *)
 Theorem C08_extract : forall idx K i,
   den (k_extract v0 idx K) i =
   if inb (kshape K) i then sum_over v0 vadd idx (comp V v0 v1 vmul K i) else v0.
-Proof. apply den_gather. Qed.
+Proof. exact (C08_extract_pf V v0 v1 vadd vmul). Qed.
 
 (* K + L, K - L, -K, c * K *)
 Theorem C08_add : forall K L i, wf_k K -> kshape K = kshape L -> den (k_add K L) i = vadd (den K i) (den L i).
-Proof. intros; eapply den_add; eauto. Qed.
+Proof. exact (C08_add_pf V v0 v1 vadd vmul vsub vopp Vring). Qed.
 Theorem C08_sub : forall K L i, wf_k K -> kshape K = kshape L -> den (k_sub vopp K L) i = vsub (den K i) (den L i).
-Proof. intros; eapply den_sub; eauto. Qed.
+Proof. exact (C08_sub_pf V v0 v1 vadd vmul vsub vopp Vring). Qed.
 Theorem C08_neg : forall K i, den (k_neg vopp K) i = vopp (den K i).
-Proof. intros; eapply den_neg; eauto. Qed.
+Proof. exact (C08_neg_pf V v0 v1 vadd vmul vsub vopp Vring). Qed.
 Theorem C08_mul : forall c K i, den (k_scale vmul c K) i = vmul c (den K i).
-Proof. intros; eapply den_scale; eauto. Qed.
+Proof. exact (C08_mul_pf V v0 v1 vadd vmul vsub vopp Vring). Qed.
 
 (* vector round trip, exactly (list equality): from_vector(tovec(K), shape, contains_weights=True) = K *)
 Theorem C08_vec_roundtrip : forall K, wf_k K -> k_from_vector v0 v1 (k_tovec v0 true K) (kshape K) true = K.
-Proof. intros; eapply from_vector_tovec; eauto. Qed.
+Proof. exact (C08_vec_roundtrip_pf V v0 v1). Qed.
 
 (* fixsigns(): same array, and an even number of factors is negated in every component (any sign oracle) *)
 Theorem C08_invariant_fixsigns : forall (negcol : list V -> bool) K i,
   den (k_fixsigns v0 v1 vmul vopp negcol K) i = den K i.
-Proof. intros; eapply den_fixsigns; eauto. Qed.
+Proof. exact (C08_invariant_fixsigns_pf V v0 v1 vadd vmul vsub vopp vinv Vring). Qed.
 Theorem C08_sign_parity : forall (negcol : list V -> bool) K r,
   Nat.even (length (flips_of (fun n r => memb n (fs_modes v0 negcol K r)) (length (kfactors K)) r)) = true.
-Proof. intros negcol K r. exact (fixsigns_parity V v0 vinv negcol K r). Qed.
+Proof. exact (C08_sign_parity_pf V v0 vinv). Qed.
 (* fixsigns(other), pairing rule of the repaired pyttb code (= the MATLAB original; A-29 fixed): even number of flips
    for every score comparison / sign oracle *)
 Theorem C08_sign_parity_other : forall (neg : V -> bool) (leb : V -> V -> bool) A B r,
   Nat.even (length (flips_of (fun n r => memb n (fso_modes v0 vadd vmul vopp neg leb A B r)) (length (kfactors A)) r)) = true.
-Proof. intros neg leb A B r. exact (fixsigns_other_parity V v0 vadd vmul vopp vinv neg leb A B r). Qed.
+Proof. exact (C08_sign_parity_other_pf V v0 vadd vmul vopp vinv). Qed.
 
 
 (* fixsigns(other) of the repaired code, SIGN-AGREEMENT NORMAL FORM (per component r of the reference, both operands already
@@ -71,11 +72,11 @@ Theorem C08_fixsigns_other_normal_form : forall (neg : V -> bool) (leb : V -> V 
      nth (nth q idx 0) (fso_scores v0 vadd vmul A' B r) v0 = flipped_sorted V v0 vopp neg leb ss q) /\
   let cnt := length (filter (fun q => neg (nth (nth q idx 0) (fso_scores v0 vadd vmul A' B r) v0)) (seq 0 (length (kfactors A)))) in
   cnt <= 1 /\ (Nat.even (length (filter neg ss)) = true -> cnt = 0).
-Proof. intros neg leb H1 H2 H3 A B r HB HA. exact (fixsigns_other_scores V v0 v1 vadd vmul vsub vopp Vring neg leb H1 H2 H3 A B r HB HA). Qed.
+Proof. exact (C08_fixsigns_other_normal_form_pf V v0 v1 vadd vmul vsub vopp Vring). Qed.
 
 (* the insertion argsort used by the executable instances is a permutation for every comparison function *)
 Theorem C08_argsort_perm : forall (leb : V -> V -> bool) l, is_perm (argsort_desc leb l) (length l).
-Proof. intros. apply argsort_desc_perm. Qed.
+Proof. exact (C08_argsort_perm_pf V). Qed.
 
 
 (* ---- wave 2: permute over modes, vector / list conversions, update ---- *)
@@ -83,23 +84,23 @@ Proof. intros. apply argsort_desc_perm. Qed.
 Theorem C08_permute : forall K p, is_perm p (length (kfactors K)) ->
   kweights (k_permute p K) = kweights K /\ kshape (k_permute p K) = pick 0 p (kshape K) /\
   forall i, length i = length (kfactors K) -> den (k_permute p K) i = den K (pick 0 (invperm p) i).
-Proof. intros; eapply den_permute; eauto. Qed.
+Proof. exact (C08_permute_pf V v0 v1 vadd vmul vsub vopp Vring). Qed.
 
 (* from_vector(tovec(K, include_weights=False), shape, contains_weights=False): the factors exactly, unit weights *)
 Theorem C08_vec_roundtrip_noweights : forall K, wf_k K -> sum_nat (kshape K) <> 0 ->
   k_from_vector v0 v1 (k_tovec v0 false K) (kshape K) false = mkK (repeat v1 (krank K)) (kfactors K).
-Proof. intros; eapply from_vector_tovec_noweights; eauto. Qed.
+Proof. exact (C08_vec_roundtrip_noweights_pf V v0 v1). Qed.
 
 (* update with all modes (weights first) = from_vector, exactly *)
 Theorem C08_update_all_modes : forall K data, length data = krank K * (sum_nat (kshape K) + 1) ->
   k_update v0 (None :: map Some (seq 0 (length (kfactors K)))) data K = k_from_vector v0 v1 data (kshape K) true.
-Proof. intros; eapply update_all_modes; eauto. Qed.
+Proof. exact (C08_update_all_modes_pf V v0 v1). Qed.
 
 (* update with a subset of the modes leaves the weights / factors that are not named untouched *)
 Theorem C08_update_frame : forall ms data K,
   (~ In None ms -> kweights (k_update v0 ms data K) = kweights K) /\
   (forall k, ~ In (Some k) ms -> nth k (kfactors (k_update v0 ms data K)) [] = nth k (kfactors K) []).
-Proof. intros; eapply update_frame; eauto. Qed.
+Proof. exact (C08_update_frame_pf V v0). Qed.
 
 (* tolist(): the unit-weight tensor of the returned factors denotes K — for EVERY order (the sign of a weight goes into
    factor 0 only, the N-th root of its modulus into every factor); the oracles must satisfy sgn(w) * root(|w|)^N = w *)
@@ -107,7 +108,7 @@ Theorem C08_tolist : forall (root vsgn vabs : V -> V) (is_one : V -> bool),
   (forall x, is_one x = true -> x = v1) -> forall K, kfactors K <> [] ->
   (forall w, In w (kweights K) -> vmul (vsgn w) (vpow v1 vmul (root (vabs w)) (length (kfactors K))) = w) ->
   forall i, den (mkK (map (fun _ => v1) (kweights K)) (k_tolist vmul root vsgn vabs is_one K)) i = den K i.
-Proof. intros; eapply den_tolist; eauto. Qed.
+Proof. exact (C08_tolist_pf V v0 v1 vadd vmul vsub vopp Vring). Qed.
 
 (* normalize / arrange / fixsigns(other): for EVERY norm oracle that is positive on non-zero columns, every sort oracle
    that returns a permutation, every sign test; 'all' needs an N-th root on the non-negative values *)
@@ -121,7 +122,7 @@ Notation normalize := (k_normalize v0 v1 vmul vopp vinv nrm pos neg root srt).
 
 Theorem C08_invariant_normalize_mode : forall n K, n < length (kfactors K) ->
   forall i, den (k_normalize_mode v0 v1 vmul vinv nrm pos n K) i = den K i.
-Proof. intros; eapply den_normalize_mode; eauto. Qed.
+Proof. exact (C08_invariant_normalize_mode_pf V v0 v1 vadd vmul vsub vopp vinv Vring nrm pos vinv_r pos_nz nrm_pos). Qed.
 
 Theorem C08_invariant_normalize : forall wf sort mode K,
   (forall n, mode = Some n -> n < length (kfactors K)) ->
@@ -129,30 +130,30 @@ Theorem C08_invariant_normalize : forall wf sort mode K,
      (forall x, neg x = false -> vpow v1 vmul (root x) (length (kfactors K)) = x) /\
      (forall x, neg x = true -> neg (vopp x) = false)) ->
   forall i, den (normalize wf sort mode K) i = den K i.
-Proof. intros; eapply den_normalize_any; eauto. Qed.
+Proof. exact (C08_invariant_normalize_pf V v0 v1 vadd vmul vsub vopp vinv Vring nrm pos neg root srt vinv_r pos_nz nrm_pos srt_perm). Qed.
 
 Theorem C08_invariant_arrange : forall wf K, (forall n, wf = Some n -> n < length (kfactors K)) ->
   forall i, den (k_arrange v0 v1 vmul vopp vinv nrm pos neg root srt wf K) i = den K i.
-Proof. intros; eapply den_arrange; eauto. Qed.
+Proof. exact (C08_invariant_arrange_pf V v0 v1 vadd vmul vsub vopp vinv Vring nrm pos neg root srt vinv_r pos_nz nrm_pos srt_perm). Qed.
 
 Theorem C08_invariant_fixsigns_other : forall (leb : V -> V -> bool) A B i,
   den (k_fixsigns_other V v0 v1 vadd vmul vopp vinv nrm pos neg root srt leb A B) i = den A i.
-Proof. intros; eapply den_fixsigns_other; eauto. Qed.
+Proof. exact (C08_invariant_fixsigns_other_pf V v0 v1 vadd vmul vsub vopp vinv Vring nrm pos neg root srt vinv_r pos_nz nrm_pos srt_perm). Qed.
 
 (* normal form, sign of the weights: after the sign step no weight is negative *)
 Theorem C08_normal_form_nonneg : forall K r, (forall x, neg x = true -> neg (vopp x) = false) ->
   kfactors K <> [] -> r < krank K -> neg (nth r (kweights (k_fix_neg v1 vmul vopp neg K)) v0) = false.
-Proof. intros; eapply fix_neg_nonneg; eauto. Qed.
+Proof. exact (C08_normal_form_nonneg_pf V v0 v1 vadd vmul vsub vopp Vring neg). Qed.
 
 (* tolist(mode): normalize(weight_factor=mode) then the factor list *)
 Theorem C08_tolist_mode : forall n K, n < length (kfactors K) ->
   forall i, den (mkK (map (fun _ => v1) (kweights K)) (k_tolist_mode v0 v1 vmul vopp vinv nrm pos neg root srt n K)) i = den K i.
-Proof. intros; eapply den_tolist_mode; eauto. Qed.
+Proof. exact (C08_tolist_mode_pf V v0 v1 vadd vmul vsub vopp vinv Vring nrm pos neg root srt vinv_r pos_nz nrm_pos srt_perm). Qed.
 
 (* score: the final A.arrange(permutation=best_perm) on the normalised copy denotes the receiver *)
 Theorem C08_invariant_score_arrange : forall p K, is_perm p (krank K) ->
   forall i, den (k_gather v0 p (normalize WNone false None K)) i = den K i.
-Proof. intros; eapply den_score_arrange; eauto. Qed.
+Proof. exact (C08_invariant_score_arrange_pf V v0 v1 vadd vmul vsub vopp vinv Vring nrm pos neg root srt vinv_r pos_nz nrm_pos srt_perm). Qed.
 
 (* ---- normal form under nrm_spec: the oracle is a norm (positively homogeneous, even, zero on zero columns) ---- *)
 Hypothesis nrm_scale : forall c l, pos c = true -> nrm (map (fun x => vmul x c) l) = vmul (nrm l) c.
@@ -163,33 +164,33 @@ Hypothesis nrm_zero : forall l, Forall (fun y => y = v0) l -> nrm l = v0.
 (* unit (or zero) columns in the requested norm after normalize(), sorted or not, and after arrange() *)
 Theorem C08_normal_form_unit_columns : forall sort K n r, n < length (kfactors K) -> r < krank K ->
   unit_or_zero V v0 v1 nrm (nth n (kfactors (normalize WNone sort None K)) []) r.
-Proof. intros; eapply normal_form_unit_columns; eauto. Qed.
+Proof. exact (C08_normal_form_unit_columns_pf V v0 v1 vadd vmul vsub vopp vinv Vring nrm pos neg root srt vinv_r pos_nz nrm_pos srt_perm nrm_scale pos_inv nrm_flip). Qed.
 Theorem C08_normal_form_unit_columns_mode : forall n K r, n < length (kfactors K) -> r < krank K ->
   unit_or_zero V v0 v1 nrm (nth n (kfactors (k_normalize_mode v0 v1 vmul vinv nrm pos n K)) []) r.
-Proof. intros; eapply normalize_mode_unit; eauto. Qed.
+Proof. exact (C08_normal_form_unit_columns_mode_pf V v0 v1 vadd vmul vsub vopp vinv Vring nrm pos vinv_r pos_nz nrm_pos nrm_scale pos_inv). Qed.
 Theorem C08_normal_form_arrange_unit_columns : forall K n r, n < length (kfactors K) -> r < krank K ->
   unit_or_zero V v0 v1 nrm (nth n (kfactors (k_arrange v0 v1 vmul vopp vinv nrm pos neg root srt None K)) []) r.
-Proof. intros; eapply normal_form_arrange_unit_columns; eauto. Qed.
+Proof. exact (C08_normal_form_arrange_unit_columns_pf V v0 v1 vadd vmul vsub vopp vinv Vring nrm pos neg root srt vinv_r pos_nz nrm_pos srt_perm nrm_scale pos_inv nrm_flip). Qed.
 
 (* a component with a zero column carries weight 0 *)
 Theorem C08_normal_form_zero_weight : forall K n r, n < length (kfactors K) -> r < krank K ->
   Forall (fun y => y = v0) (col v0 (nth n (kfactors K) []) r) ->
   nth r (kweights (normalize WNone false None K)) v0 = v0.
-Proof. intros; eapply normal_form_zero_weight; eauto. Qed.
+Proof. exact (C08_normal_form_zero_weight_pf V v0 v1 vadd vmul vsub vopp vinv Vring nrm pos neg root srt nrm_zero). Qed.
 Theorem C08_normal_form_zero_weight_mode : forall n K r, r < krank K ->
   Forall (fun y => y = v0) (col v0 (nth n (kfactors K) []) r) ->
   nth r (kweights (k_normalize_mode v0 v1 vmul vinv nrm pos n K)) v0 = v0.
-Proof. intros; eapply normalize_mode_zero_weight; eauto. Qed.
+Proof. exact (C08_normal_form_zero_weight_mode_pf V v0 v1 vadd vmul vsub vopp vinv Vring nrm pos nrm_zero). Qed.
 
 (* absorbed weights are all one (normalize with weight_factor = a mode or 'all', sorted or not; arrange(weight_factor)) *)
 Theorem C08_normal_form_all_one : forall wf sort K, absorbs wf (length (kfactors K)) ->
   krank (normalize wf sort None K) = krank K /\
   forall r, r < krank K -> nth r (kweights (normalize wf sort None K)) v0 = v1.
-Proof. intros; eapply normal_form_all_one; eauto. Qed.
+Proof. exact (C08_normal_form_all_one_pf V v0 v1 vmul vopp vinv nrm pos neg root srt srt_perm). Qed.
 Theorem C08_normal_form_arrange_all_one : forall n K,
   krank (k_arrange v0 v1 vmul vopp vinv nrm pos neg root srt (Some n) K) = krank K /\
   forall r, r < krank K -> nth r (kweights (k_arrange v0 v1 vmul vopp vinv nrm pos neg root srt (Some n) K)) v0 = v1.
-Proof. intros; eapply normal_form_arrange_all_one; eauto. Qed.
+Proof. exact (C08_normal_form_arrange_all_one_pf V v0 v1 vmul vopp vinv nrm pos neg root srt srt_perm). Qed.
 
 (* descending weights when sorting is requested: the argsort-based permutation sorts (any total comparison) *)
 Theorem C08_normal_form_sorted_desc : forall (leb : V -> V -> bool), (forall a b, leb a b = false -> leb b a = true) ->
@@ -197,11 +198,7 @@ Theorem C08_normal_form_sorted_desc : forall (leb : V -> V -> bool), (forall a b
     (kweights (k_normalize v0 v1 vmul vopp vinv nrm pos neg root (argsort_desc leb) wf true None K)) /\
   Sorted (fun a b => leb b a = true)
     (kweights (k_arrange v0 v1 vmul vopp vinv nrm pos neg root (argsort_desc leb) None K)).
-Proof.
-  intros leb Ht wf K.
-  exact (conj (normal_form_sorted_desc V v0 v1 vmul vopp vinv leb Ht nrm pos neg root wf K)
-              (normal_form_arrange_sorted_desc V v0 v1 vmul vopp vinv leb Ht nrm pos neg root K)).
-Qed.
+Proof. exact (C08_normal_form_sorted_desc_pf V v0 v1 vmul vopp vinv nrm pos neg root). Qed.
 End Oracles.
 End C08.
 
